@@ -188,6 +188,22 @@ CHECKS["C16"] = dict(
     design="5/C16",
 )
 
+CHECKS["C11"] = dict(
+    text="Proved for EVERY XML tree (any depth, tags, character data), with TEXT_CONTENT regenerated from container.py at each run: pretty_indent keeps every "
+    "element, attribute and the structure (only character data changes); under the decidable nesting hypothesis WF (no paragraph directly inside textual "
+    "content; evaluated on every tree met) what an ODF 1.2 consumer reads in EVERY paragraph and heading at any depth is unchanged (through the C05 consumer); "
+    "the regenerated set still holds the mixed-content elements and none of the element-only ones. Save protocol (abstract parts): save never changes a "
+    "parsed part, saving twice and pretty-then-plain write the same content. Correspondence: pretty_indent of the implementation vs the model on every part "
+    "of every sample / template / generated document. Oracle (lxml): per paragraph reading, start tags + attributes, in-memory serialisation before / after, "
+    "for pretty x {zip, folder, xml} and save sequences (canonical XML compared).",
+    note="The Lean reading treats an element as transparent iff it is in TEXT_CONTENT (so the theorem is relative to that set: text_content_core pins its "
+    "core; the oracle's reading is independent of it). office:binary-data (textwrap of base64) is outside the model and trees holding it or comments are "
+    "skipped by the correspondence. The save protocol theorems are about an abstract model (bytes = the tree they parse to) tied to the code by the "
+    "save-sequence oracle only; flat XML export is covered by the oracle only (content paragraphs).",
+    technique="Lean 4 theorems (structural induction over a first-child/next-sibling forest, consumer state lemma) over a model partly regenerated from the source + differential correspondence + lxml oracle",
+    design="5/C11",
+)
+
 NOT_YET = {}
 
 
